@@ -143,6 +143,10 @@ class Check:
                     for e in evs:
                         f.write(json.dumps(e, separators=(",", ":")) + "\n")
             files.append(tf)
+        if os.environ.get("VERIF_KEEP_TRACES"):          # debugging aid: keep a copy of the recorded traces
+            os.makedirs(os.environ["VERIF_KEEP_TRACES"], exist_ok=True)
+            for tf in files:
+                shutil.copy(tf, os.environ["VERIF_KEEP_TRACES"])
         out = tlc.validate_traces(module, files, self.scratch, parallel=parallel)
         divs = []
         for tf, r, data in out:
